@@ -18,7 +18,8 @@
   The code mirrored is /repo AFTER the repairs found with this check: ac6c1c2 (Set.__set__ registers an undo when called
   with an undo list), 42ccfa3 (_delete_ clears a one-to-one partner only if it still points back), 34f1ffe (no clearing of
   the object itself under a symmetric attribute), 8185edc (_delete_: a re-entered frame stops when a nested frame of the
-  same object has finished; the status undo is registered just before the status change).
+  same object has finished; the status undo is registered just before the status change), 497b8cf (Set.__set__ drops
+  the items that its own cascade has deleted: `finalRow`).
 
   Sections: 1 schema · 2 object store · 3 undo trail · 4 result monad · 5 per-attribute procedures ·
             6 collection procedures · 7 delete · 8 top-level calls · 9 operations and `step`.
@@ -250,6 +251,10 @@ def rewriteRow (isRev : Bool) (o : ObjId) (c : Attr) (f : ObjId → Bool) (st : 
   let st := if isRev then st.log (.row o c (st.store.mem o c)) else st
   st.setStore (st.store.setRow o c f)
 
+/-- the contents `Set.__set__` finally stores: the new items, without those a cascade of the call has deleted -/
+def finalRow (casc : Bool) (items : List ObjId) (s : Store) : ObjId → Bool :=
+  fun x => items.contains x && (!casc || s.alive x)
+
 /-- `Set.__set__(attr=c, obj=o, new_items, undo_funcs)`; `del` is `Entity._delete_` (cascade branch). -/
 def setCollCore (sch : Schema) (del : ObjId → St → Res) (isRev : Bool) (o : ObjId) (c : Attr)
     (items : List ObjId) (st : St) : Res :=
@@ -266,7 +271,9 @@ def setCollCore (sch : Schema) (del : ObjId → St → Res) (isRev : Bool) (o : 
          else iter (fun item => attrClearRev sch item (sch.rev c)) toRemove st).bind  -- reverse.__set__(item, None, ..)
           (iter (fun item => attrSetRev sch item (sch.rev c) o) toAdd)                -- reverse.__set__(item, obj, ..)
       else (reverseRemove (sch.rev c) toRemove o st).bind (reverseAdd (sch.rev c) toAdd o)
-    r.bind fun st => .ok (rewriteRow isRev o c (fun x => items.contains x) st)
+    -- (cascade branch only) `new_items = {item for item in new_items if item._status_ not in del_statuses}`; the filter is
+    -- applied here, after the loop over `to_add`, which does not change any status
+    r.bind fun st => .ok (rewriteRow isRev o c (finalRow (!rd.isColl && d.cascade) items st.store) st)
   | _, _ => .err .noSuchAttr st
 
 /-! ## 7. Delete -/
